@@ -121,6 +121,25 @@ def run(ctx):
                 metas.append(meta)
             terms.append(A.case_term(base_parts, False, linked, opts, base_html, base_raw))
             metas.append({"body": [xml_json(x) for x in pkg.body], "options": opts, "rewrites": [], "index": i})
+    # a LARGE, highly repetitive document (deflate shrinks it several hundred times): stored vs deflated, usual vs reversed entry order
+    from mammoth.docx.xmlparser import element as X, text as XT
+    bulk = gen_xml.Package()
+    row = X("w:tr", {}, [X("w:tc", {}, [X("w:p", {}, [X("w:r", {}, [X("w:t", {}, [XT("cell")])])])]) for _ in range(4)])
+    bulk.body = [X("w:tbl", {}, [X("w:tblPr"), X("w:tblGrid")] + [row] * (3000 if ctx.thorough else 1000))]
+    outs = []
+    for comp, order in ((zipfile.ZIP_DEFLATED, "normal"), (zipfile.ZIP_STORED, "normal"), (zipfile.ZIP_DEFLATED, "reversed"), (zipfile.ZIP_STORED, "reversed")):
+        data, _ = B.build(bulk, B.Spelling(rng=rng, compression=comp, zip_order=order))
+        try:
+            h = mammoth.convert_to_html(io.BytesIO(data))
+            t = mammoth.extract_raw_text(io.BytesIO(data))
+            outs.append((len(data), h.value, [m.message for m in h.messages], t.value))
+        except Exception as e:
+            outs.append((len(data), "raised %r" % e, None, None))
+        ctx.count()
+    dist["bulk_variants"] = len(outs)
+    if any(o[1:] != outs[0][1:] for o in outs):
+        ctx.violation("oracle", "zip compression / entry order changed the result of a large repetitive document: %s" % [(o[0], str(o[1])[:60]) for o in outs],
+                      {"api": "mammoth.convert_to_html", "document": "one table of %d identical rows" % (len(bulk.body[0].children) - 2), "rewrites": ["compression", "zip_order"]}, True)
     for i in ctx.coq_eval("c13", A.HEADER, terms, A.CASE_TYPE, "chk_api", shard=12)[:5]:
         ctx.violation("correspondence", "model and implementation disagree on a rewritten package",
                       dict(metas[i], obligation="correspondence Model/Api.v + Model/Dom.v vs mammoth.convert_to_html"), False)
@@ -137,6 +156,9 @@ def run(ctx):
 def replay(ctx, rep):
     import random
     r = rep["replay"]
+    if "package" not in r:
+        print("replay: the bulk document (%s) is rebuilt by ./check C13 itself; re-run the check" % r.get("document"))
+        return 1
     pkg = gen_xml.pkg_from_json(r["package"])
     rng = random.Random(1)
     base, _ = B.build(pkg, B.Spelling(rng=rng))
